@@ -381,6 +381,78 @@ class Oracle:
             return [(o.end, c.start)]
         return None
 
+    def expected_delims(self, n):
+        """span of the node's own closing delimiter pair: Call / MatchClass '(' ... ')', Subscript '[' ... ']'"""
+        fl = self.first_last(n)
+        if fl is None:
+            return None
+        want = ']' if isinstance(n, ast.Subscript) else ')'
+        if fl[1].s != want or fl[1].i not in self.match:
+            return None
+        return (self.toks[self.match[fl[1].i]].start, fl[1].end)
+
+    def expected_bases_pars(self, c):
+        """(n, span) of `_loc_ClassDef_bases_pars`: the parentheses after the class name / type parameters, or (0, the
+        gap from there to the header ':')"""
+        i = self.classdef_open(c)
+        if i == 'ambiguous':
+            return None
+        if i is not None:
+            return 1, (self.toks[i].start, self.toks[self.match[i]].end)
+        s, _ = self.span(c)
+        t = self.by_start.get(s)
+        if t is None:
+            return None
+        j = t.i + 1                       # NAME
+        if j + 1 < len(self.toks) and self.toks[j + 1].s == '[':
+            j = self.match[j + 1]
+        nxt = self.toks[j + 1]
+        if nxt.s != ':':
+            return None
+        return 0, (self.toks[j].end, nxt.start)
+
+    def expected_kwd_attr(self, mc, i):
+        """span of the i-th keyword attribute NAME of a MatchClass"""
+        fl = self.first_last(mc.kwd_patterns[i])
+        if fl is None:
+            return None
+        j = fl[0].i - 1
+        while j >= 0 and self.toks[j].s == '(':
+            j -= 1
+        if j < 1 or self.toks[j].s != '=' or self.toks[j - 1].s != mc.kwd_attrs[i]:
+            return None
+        t = self.toks[j - 1]
+        return (t.start, t.end)
+
+    def expected_type_params_brackets(self, n):
+        """(span of '[' ... ']' or None, end of the name) for FunctionDef / AsyncFunctionDef / ClassDef / TypeAlias"""
+        s, _ = self.span(n)
+        t = self.by_start.get(s)
+        if t is None:
+            return None
+        i = t.i
+        if self.toks[i].s == 'async':
+            i += 1
+        if self.toks[i].s not in ('def', 'class', 'type'):
+            return None
+        name = self.toks[i + 1]
+        nxt = self.toks[i + 2] if i + 2 < len(self.toks) else None
+        if nxt is not None and nxt.s == '[' and nxt.i in self.match:
+            return ((nxt.start, self.toks[self.match[nxt.i]].end), name.end)
+        return (None, name.end)
+
+    def expected_mapping_rest(self, mm):
+        """(span of the rest NAME, start of its '**') of a MatchMapping with `rest`"""
+        fl = self.first_last(mm)
+        if fl is None or fl[1].s != '}':
+            return None
+        j = fl[1].i - 1
+        if self.toks[j].s == ',':
+            j -= 1
+        if j < 1 or self.toks[j].s != mm.rest or self.toks[j - 1].s != '**':
+            return None
+        return ((self.toks[j].start, self.toks[j].end), self.toks[j - 1].start)
+
     def expected_bloc(self, s, loc_end):
         """bloc of a block statement: from the first decorator's '@' (or the statement start) to the end, extended to
         the end of the line when a comment follows on the last line"""
